@@ -11,6 +11,7 @@ stated for every instruction except decimal-mode ADC/SBC (`NotDecimalArith`), an
 deviation on the model ($09 + $09).
 -/
 import SnesVerif.Cpu.Refine.Step4
+import SnesVerif.Cpu.Refine.Ops9b
 open Cpu Gen
 open Spec (Mode Mnem)
 set_option maxRecDepth 100000
@@ -79,6 +80,53 @@ theorem step_refines (v : Variant) (s : St) (hE : s.r.E = false) (hnd : ¬ Decim
   · rw [h2]
     show WDC.exec (abs s) mn md = WDC.exec (abs s) (Spec.decode (s.m.f (lin s.r.RK s.r.PC)).toNat).1 (Spec.decode (s.m.f (lin s.r.RK s.r.PC)).toNat).2
     rw [hd]
+
+/-- **C01, decimal ADC/SBC (partial)**: the one case `step_refines` excludes.  Everything these instructions do not
+compute arithmetically still conforms: operand fetch and addressing (memory untouched, same PC advance), all other
+registers, the hidden B byte in 8-bit mode, the mode flags.  What deviates is the sum itself and N V Z C (known finding D14). -/
+theorem step_refines_decimal_partial (v : Variant) (s : St) (hE : s.r.E = false) (hd : DecimalArith (abs s)) :
+    ∃ s', step v s = some ((), s') ∧ ArithFrame (abs s') (WDC.step (abs s)) := by
+  have hrow := rows_ok v (s.m.f (lin s.r.RK s.r.PC))
+  generalize hdc : Spec.decode (s.m.f (lin s.r.RK s.r.PC)).toNat = d at hrow
+  obtain ⟨mn, md⟩ := d
+  unfold rowOK at hrow
+  simp only [Bool.and_eq_true, decide_eq_true_eq, List.all_cons, List.all_nil, Bool.and_true] at hrow
+  obtain ⟨⟨⟨hproc, hmode⟩, hok⟩, hsize⟩ := hrow
+  obtain ⟨cyc, hds⟩ := decodeStage_eq (semOf v) (adjOf v) md s hmode
+  have hsz : BitVec.ofNat 16 (semOf v (s.m.f (lin s.r.RK s.r.PC))).size - sizeAdj md s.r =
+      BitVec.ofNat 16 (Spec.instrLen md s.r.M s.r.X) := by
+    rw [sizeAdj_eq]
+    cases hM : s.r.M <;> cases hX : s.r.X <;>
+      first | exact hsize.1.1 | exact hsize.1.2 | exact hsize.2.1 | exact hsize.2.2
+  have hmn : mn = .adc ∨ mn = .sbc := by
+    have h2 := hd.2
+    have e : (Spec.decode ((abs s).mem (WDC.addr24 (abs s).PBR (abs s).PC)).toNat).1 = mn := by
+      show (Spec.decode (s.m.f (lin s.r.RK s.r.PC)).toNat).1 = mn
+      rw [hdc]
+    rw [e] at h2; exact h2
+  have key : ∀ (neg : Bool) (q : Proc), runP q = op_adcLike neg → procOf mn = q →
+      WDC.exec (abs s) mn md = { WDC.addA (abs s) neg (WDC.resolve (abs s) md) with
+        PC := (abs s).PC + BitVec.ofNat 16 (Spec.instrLen md (abs s).fM (abs s).fX) } →
+      Mode.isData md = true →
+      ∃ s', step v s = some ((), s') ∧ ArithFrame (abs s') (WDC.step (abs s)) := by
+    intro neg q hq hpq hex hdm
+    obtain ⟨s3, h1, h2⟩ := adcLike_frame s.r s.m.f s.m.wlog _ cyc ((implInfo md s.r s.m.f).2 % 16777216) (implInfo md s.r s.m.f).1
+      (amodeOf md) neg q hq (isData_amodeOf md hdm) (mod_lt _)
+    refine ⟨s3, ?_, ?_⟩
+    · show stepWith (semOf v) (adjOf v) s = _
+      unfold stepWith
+      rw [bind_eq', hds]
+      simp only [hproc, hpq]
+      exact h1
+    · rw [implLoc_resolve md hdm s.r s.m.f s.m.wlog, hsz] at h2
+      have : WDC.step (abs s) = WDC.exec (abs s) mn md := by
+        show WDC.exec (abs s) (Spec.decode (s.m.f (lin s.r.RK s.r.PC)).toNat).1 (Spec.decode (s.m.f (lin s.r.RK s.r.PC)).toNat).2 = _
+        rw [hdc]
+      rw [this, hex]
+      exact h2
+  rcases hmn with h | h <;> subst h
+  · exact key false .adc rfl rfl rfl hok
+  · exact key true .sbc rfl rfl rfl hok
 
 /-- the conditions under which the next spec state is again covered: native mode, no decimal ADC/SBC -/
 def Covered (a : WDC.Arch) : Prop := a.E = false ∧ ¬ DecimalArith a
